@@ -75,6 +75,10 @@ func (h *Handler) handleDiscover(p packet.DHCP4, options packet.DHCP4Options) (d
 		if !bytes.Equal(lease.XID, p.XId()) { // new discover packet
 			lease.IPOffer = netip.Addr{}
 		}
+
+	// a freed lease has no outstanding offer: an offer that expired with it may belong to another client by now
+	default:
+		lease.IPOffer = netip.Addr{}
 	}
 
 	if !lease.IPOffer.IsValid() {
